@@ -108,6 +108,17 @@ class Program:
 
     # ------------------------------------------------------------------ loading
     def _load(self):
+        if self.repo == "<memory>":
+            # purely in-memory program (positive / negative controls of the rules)
+            for rel, src in sorted(self.overrides.items()):
+                parts = rel[:-3].split("/")
+                if parts[-1] == "__init__":
+                    parts = parts[:-1]
+                name = ".".join(parts)
+                self.modules[name] = ModuleInfo(name, rel, rel, src)
+            for m in self.modules.values():
+                self._index_module(m)
+            return
         root = os.path.join(self.repo, self.pkg)
         if not os.path.isdir(root):
             raise AnalysisError(f"package directory {root} not found")
